@@ -386,16 +386,18 @@ func genSessions(c *lib.Ctx, rng *rand.Rand) []sessIn {
 			Events: []evIn{{Kind: "wait", WaitMS: 2000}, {Kind: "wait", WaitMS: 2000}, {Kind: "delete"}}})
 	}
 	// 13. uploads that take long: a receiver that needs more than 5 s before it reads one upload (the sender
-	//     has to wait: the segment arrives whole, the next step goes on), and - thorough tier - a chunked
-	//     upload that stays open for 7 s (8 s segments, ato_7/chunkdur_1)
+	//     has to wait: the segment arrives whole, the next step goes on), and a chunked upload that stays
+	//     open for 7 s (8 s segments, ato_7/chunkdur_1)
 	{
 		ev := steps(2)
 		ev[0].SlowRep, ev[0].SlowMS = "A48", 5600
 		add(sessIn{Kind: "very-slow-receiver", Asset: "testpic_2s", MPD: "Manifest.mpd", Cfg: cfgIn{Mode: "number", Snr: -1, Tsbd: -1}, NowMS: 20000, Test: true, Events: ev, Solo: true})
+		nlong := 1 // 7 s of real time per step
 		if c.Thorough() {
-			add(sessIn{Kind: "chunked-long-upload", Asset: "testpic_8s", MPD: "Manifest.mpd", Cfg: cfgIn{Mode: "number", Snr: -1, Tsbd: -1, AtoMS: 7000, ChunkDurMS: 1000},
-				NowMS: 40000, Test: true, Events: steps(2), Solo: true})
+			nlong = 2
 		}
+		add(sessIn{Kind: "chunked-long-upload", Asset: "testpic_8s", MPD: "Manifest.mpd", Cfg: cfgIn{Mode: "number", Snr: -1, Tsbd: -1, AtoMS: 7000, ChunkDurMS: 1000},
+			NowMS: 40000, Test: true, Events: steps(nlong), Solo: true})
 	}
 	// 12. generated assets with several video representations of different timescales, two audio
 	//     tracks and subtitles: every representation endpoint gets its own segment per step
